@@ -216,6 +216,45 @@ def run_case(case, rec, tier="quick", all_positions=False):
             if j < n - 1:
                 expect_refused(cls, fs[:j + 1] + [dup] + fs[j + 1:], "duplicate_container", dict(of=j, where="middle"), rec, cls_name, n, j)
             os.unlink(dup)
+        # edited chain headers (payload and its hashsum untouched): duplicated patch_uuid with the successor relinked,
+        # prev_patch pointing at another container, duplicated / skipped patch_index
+        if n >= 2:
+            from metador_core.ih5.record import IH5UserBlock
+
+            ubs = [IH5UserBlock.load(f) for f in fs]
+            for j in range(1, n):
+                for i in sorted({0, j - 1, max(0, j - 2)}):
+                    fs = fresh()
+                    ub = IH5UserBlock.load(fs[j])
+                    ub.patch_uuid = ubs[i].patch_uuid
+                    ub.save(fs[j])
+                    if j + 1 < n:
+                        nx = IH5UserBlock.load(fs[j + 1])
+                        nx.prev_patch = ubs[i].patch_uuid
+                        nx.save(fs[j + 1])
+                    expect_refused(cls, fs, "header_dup_patch_uuid", dict(uuid_of=i, bucket="adjacent" if i == j - 1 else "distant"),
+                                   rec, cls_name, n, j)
+                for i in range(n):
+                    if i == j - 1:
+                        continue
+                    fs = fresh()
+                    ub = IH5UserBlock.load(fs[j])
+                    ub.prev_patch = ubs[i].patch_uuid
+                    ub.save(fs[j])
+                    expect_refused(cls, fs, "header_prev_patch", dict(points_at=i), rec, cls_name, n, j)
+                for newidx, b in ((ubs[j].patch_index - 1, "same_as_previous"), (ubs[j].patch_index + 1, "skips_one")):
+                    if b == "skips_one" and j + 1 < n:
+                        continue  # (would equal the successor's index: covered by same_as_previous there)
+                    fs = fresh()
+                    ub = IH5UserBlock.load(fs[j])
+                    ub.patch_index = newidx
+                    ub.save(fs[j])
+                    if b == "skips_one":
+                        # a lone skipped index at the end is still an ascending chain with intact links: the statement's
+                        # "gap-free" is about missing containers, which this is not -> only the duplicate index is asserted
+                        continue
+                    expect_refused(cls, fs, "header_patch_index", dict(bucket=b), rec, cls_name, n, j)
+            fs = fresh()
         # unrelated record built from the same history
         osess, ofiles, _ = build(case, cls, "rec")
         other = osess
